@@ -19,6 +19,7 @@ INVARIANT C05_Contiguous
 INVARIANT C05_NoStrayWrites
 PROPERTY C05_WritesUnderLock
 PROPERTY C10_DeadlineKept
+PROPERTY C10_ReplacedDeadlineInert
 CHECK_DEADLOCK FALSE
 '''
 
@@ -55,6 +56,10 @@ def scenarios(tier, focus):
         # (its write may be interrupted: the encoder is broken afterwards) must not disarm it
         for a in (["sendc", "close"], ["encodec", "close"], ["close", "sendc"], ["sendc"], ["tx", "sendc", "close"]):
             out.append({"procs": [{"name": "a", "calls": a}], "serve": True, "script": ["dlset", "dlfire"], "big": False})
+        # SetCloseDeadline again with a later time: the time that was replaced goes by, the peer sends a stanza and
+        # closes in time (Serve: nil) / never closes until the deadline in force passes (Serve: error)
+        out.append({"procs": [{"name": "a", "calls": ["close"]}], "serve": True, "script": ["dl2", "dlold", "stanza_reply", "close"], "big": False, "maxruns": 8})
+        out.append({"procs": [{"name": "a", "calls": ["close"]}], "serve": True, "script": ["dl2", "dlold", "dlfire"], "big": False, "maxruns": 4})
         out.append({"procs": [{"name": "a", "calls": ["sendc", "tx", "close"]}, {"name": "b", "calls": ["tx"]}], "serve": False, "script": [], "big": False})
         out.append({"procs": [{"name": "a", "calls": ["encodec"]}, {"name": "b", "calls": ["close"]}], "serve": True, "script": ["close"], "big": True})
         scripts = [[], ["close"], ["stanza_reply"], ["stanza_herr"], ["streamerr"], ["stanza_reply", "close"], ["stanza", "stanza_herr"]]
@@ -95,6 +100,14 @@ def scenarios(tier, focus):
 
 
 def explore(ctx, scen, maxpre, maxruns=0, shards=None):
+    # scenarios that let real time go by run in a driver of their own (next to the others they slow whole shards down)
+    slow = [s for s in scen if s.get("maxruns")]
+    if slow and len(slow) < len(scen):
+        f1, s1 = explore(ctx, [s for s in scen if not s.get("maxruns")], maxpre, maxruns, shards)
+        f2, s2 = explore(ctx, slow, maxpre, maxruns, len(slow))
+        for k in ("traces", "events", "evaluations", "distinct", "stuck"):
+            s1[k] += s2[k]
+        return f1 + f2, s1
     if maxruns == 0 and ctx.tier == "thorough":
         # a budget of ~100 000 schedules in all (about 35 ms each, 16 shards): a few minutes
         maxruns = max(200, min(2500, 100000 // max(1, len(scen))))
@@ -106,7 +119,7 @@ def explore(ctx, scen, maxpre, maxruns=0, shards=None):
             f.write(json.dumps(s) + "\n")
     procs = []
     for i in range(shards):
-        tr = ctx.path("out-trace-%d.ndjson" % i)
+        tr = ctx.path("out-trace-%d-%d.ndjson" % (len(scen), i))
         env = dict(verif.GOENV, OUT_MAXPRE=str(maxpre), OUT_MAXRUNS=str(maxruns), OUT_SHARD="%d/%d" % (i, shards),
                    VERIF_SEED=str(ctx.seed), GOMAXPROCS="2")
         procs.append((tr, subprocess.Popen([b, "run", sf, tr], env=env, cwd=ctx.scratch, stdout=subprocess.PIPE, stderr=subprocess.STDOUT, text=True)))
